@@ -1,8 +1,39 @@
 package harness
 
 import (
+	"encoding/hex"
+	"strings"
+
 	"google.golang.org/protobuf/types/known/anypb"
 )
+
+// decStr decodes the case-file convention for strings that JSON cannot carry:
+// "hex:<hexdigits>" stands for those raw bytes (e.g. invalid UTF-8).
+func decStr(s string) string {
+	if strings.HasPrefix(s, "hex:") {
+		if b, err := hex.DecodeString(s[4:]); err == nil {
+			return string(b)
+		}
+	}
+	return s
+}
+
+func encStr(b []byte) string { return "hex:" + hex.EncodeToString(b) }
+
+func decMD(md map[string][]string) map[string][]string {
+	if md == nil {
+		return nil
+	}
+	out := make(map[string][]string, len(md))
+	for k, vs := range md {
+		nv := make([]string, len(vs))
+		for i, v := range vs {
+			nv[i] = decStr(v)
+		}
+		out[decStr(k)] = nv
+	}
+	return out
+}
 
 func anyDetail(d string) *anypb.Any {
 	return &anypb.Any{TypeUrl: "type.verif/" + d, Value: []byte(d)}
